@@ -276,7 +276,10 @@ impl StdInWorker for ScanStdin {
   ) -> Result<Vec<P::Processed>> {
     use ast_grep_core::Language;
     let lang = self.rules[0].language;
-    let mut combined = CombinedScan::new(self.rules.iter().collect());
+    // a turned-off rule does not run, like in `RuleCollection`
+    let rules = self.rules.iter();
+    let rules = rules.filter(|r| !matches!(r.severity, Severity::Off));
+    let mut combined = CombinedScan::new(rules.collect());
     combined.set_unused_suppression_rule(&self.unused_suppression_rule);
     let grep = lang.ast_grep(src);
     let path = Path::new("STDIN");
